@@ -13,3 +13,5 @@ mod c20_interner;
 mod c15_hpack;
 #[cfg(all(kani, feature = "p_tfm"))]
 mod c10_tfm;
+#[cfg(all(kani, feature = "p_common"))]
+mod c06_print;
